@@ -92,6 +92,12 @@ function obs() {
   if (tag !== "ascii" && tag !== "unicode" && tag.indexOf("imported") !== 0) errs.push("not a string: " + tag);
   var rs = refs(tk);
   for (var i = 0; i < rs.length; i++) sameAs(A, rs[i], "a/" + ORIGINS[i], errs);
+  // a long string: the lazily scanned Go import (> 16 bytes) of PAD + content against the same content concatenated in script
+  if (wellFormed(u)) {
+    var pad = (tk.length & 1) ? PADU : PADA;
+    sameAs(pad + A, __goString(pad + String.fromCharCode.apply(null, u)), "pad+a/golong-unscanned", errs);
+    sameAs(__goString(pad + String.fromCharCode.apply(null, u)), pad + A, "golong-unscanned/pad+a", errs);
+  }
   for (var i = 0; i < A.length; i++) if (A.charCodeAt(i) !== u[i] || A[i] !== String.fromCharCode(u[i])) errs.push("code unit " + i);
   if (wellFormed(u) && JSON.stringify(__exportUnits(A)) !== JSON.stringify(u)) errs.push("export content " + JSON.stringify(__exportUnits(A)));
   if (errs.length) return {err: errs[0], n: errs.length};
